@@ -6,6 +6,13 @@ from tools.gen import cfuns as gen_cfuns
 from tools.gen.csrc import ExtractError
 
 THEOREMS = [
+    # session 4 (second part): variadic arithmetic as an emitter with registers
+    "JanetModel.Spec.isImmOp_of_base",
+    "JanetModel.Spec.acc_step",
+    "JanetModel.Spec.fold_chain_computes",
+    "JanetModel.Spec.opreduce_chain_computes",
+    "JanetModel.Props.C15.opreduce_rows_ok",
+    "JanetModel.Props.C15.variadic_emitted_eq_generic",
     "JanetModel.Bytecode.VM.imm_agrees",
     "JanetModel.Props.C15.inline_eq_generic_row",
     "JanetModel.Props.C15.rows_agree_partial",
@@ -197,6 +204,17 @@ def real_ops(opsfield, mnem):
     return ",".join(out)
 
 
+def full_ops(opsfield, mnem):
+    """the implementation's instruction list with operands, mnemonics mapped to JOP names (operands as `disasm` prints them; the driver prints the
+    same layout, e.g. the unsigned byte for the SSU-typed unsigned-shift immediate)"""
+    out = []
+    for ins in [x for x in opsfield.split(",") if x]:
+        parts = ins.split(":")
+        jop, ty = mnem.get(parts[0], ("?" + parts[0], ""))
+        out.append(":".join([jop] + parts[1:]))
+    return out
+
+
 def correspondence(ctx, quick, broken, janet, scratch, exe, tree):
     """(D) model vs implementation: emitted opcode/immediate sequence (Spec.emitInline vs the real compiler's disasm),
     outcome of the inline call (Spec.evalInline vs the VM), outcome of the generic call (Spec.evalGeneric vs the template)."""
@@ -230,12 +248,16 @@ def correspondence(ctx, quick, broken, janet, scratch, exe, tree):
                 if m:
                     # the Lean model's numbers are integers: no negative zero
                     nz = lambda t: re.sub(r"(?<![0-9.e])-0(?![0-9.])", "0", t)
-                    impl[int(m.group(1))] = (real_ops(m.group(2), mnem), nz(m.group(3)), nz(m.group(4)))
+                    impl[int(m.group(1))] = (real_ops(m.group(2), mnem), nz(m.group(3)), nz(m.group(4)), full_ops(m.group(2), mnem))
             if rc != 0:
                 crashed.append(err[-1500:])
     model = ctx.model([gen.model_driver_line(c) for c in cases], exe=exe)
+    # full instruction chain WITH registers (Spec.emitOpreduceCode) where the operand pattern is covered by the model: the k-th register
+    # operand is parameter register k, every constant is an immediate, target = first free register
+    chain = ctx.model([gen.model_driver_line(c).replace("call ", "chain ", 1) for c in cases], exe=exe)
     diffs = []
     direct = []
+    nchain = 0
     for i, c in enumerate(cases):
         if i not in impl:
             continue
@@ -246,6 +268,13 @@ def correspondence(ctx, quick, broken, janet, scratch, exe, tree):
         for fld, a, b in (("ops", m.group(1), impl[i][0]), ("inline", m.group(2), impl[i][1]), ("generic", m.group(3), impl[i][2])):
             if a != b:
                 diffs.append({"case": gen.model_driver_line(c), "janet": gen.model_janet_line(i, c), "field": fld, "model": a, "impl": b})
+        mc = re.match(r"^code=(.*)$", chain[i])
+        if mc and mc.group(1) != "-":
+            nchain += 1
+            want = mc.group(1).split(",")
+            got = impl[i][3]
+            if got[:len(want)] != want or [g.split(":")[0] for g in got[len(want):]] not in (["JOP_RETURN"], []):
+                diffs.append({"case": gen.model_driver_line(c), "janet": gen.model_janet_line(i, c), "field": "chain-with-registers", "model": want, "impl": got})
         unary_minus = c[0] == "SUBTRACT" and len(c[2]) == 1
         if impl[i][1] != impl[i][2] and not unary_minus:
             direct.append((i, c, impl[i]))
@@ -263,7 +292,7 @@ def correspondence(ctx, quick, broken, janet, scratch, exe, tree):
                        "how": "append the janet line to harness/C15/routes.janet + gen.PRELUDE_DEFS + harness/C15/emit.janet and run it"},
                       what="%s: inline call gives %s, generic call gives %s" % (gen.model_janet_line(i, c), im[1][:100], im[2][:100]))
     return {"model_correspondence_cases": len(cases), "model_correspondence_completed": len(impl), "model_correspondence_diffs": len(diffs),
-            "model_correspondence_first_diffs": diffs[:5], "evaluations": 3 * len(impl), "distinct_nontrivial": len(set(gen.model_driver_line(c) for c in cases)),
+            "model_correspondence_first_diffs": diffs[:5], "model_correspondence_chains_with_registers": nchain, "evaluations": 3 * len(impl) + nchain, "distinct_nontrivial": len(set(gen.model_driver_line(c) for c in cases)),
             "model_correspondence_samples": [gen.model_driver_line(cases[i]) for i in (1, len(cases) // 2, len(cases) - 1)]}
 
 
